@@ -1,6 +1,9 @@
 #![allow(dead_code)]
 mod ast;
+mod compile;
 mod gen_lp;
+mod gen_model;
+mod points;
 mod lin;
 mod lp;
 mod lpfmt;
@@ -11,7 +14,11 @@ mod runner;
 use runner::*;
 
 fn drivers() -> Vec<Box<dyn Driver>> {
-    vec![Box::new(props::c17::C17)]
+    vec![
+        Box::new(props::c01::C01),
+        Box::new(props::c01::C02),
+        Box::new(props::c17::C17),
+    ]
 }
 
 fn find(id: &str) -> Box<dyn Driver> {
